@@ -231,16 +231,31 @@ class Interp:
         return self.cur_fn[-1][0] if self.cur_fn else self.ctx.fname
 
     def do_assert(self, s, env):
+        """`assert c` is `if not c: raise AssertionError`.  When the contract does not permit an AssertionError the
+        condition is a proof obligation (then assumed); when it does, both outcomes are explored."""
         v = self.eval(s.test, env)
         fn = self.fn_name()
         k = self.next_ordinal("assert")
-        oid = "%s:assert#%d" % (fn, k)
+        oid = "%s:assert.%s#%d" % (self.ctx.fname, fn.split("::")[-1], k)
         note = "source assert at line +%d: %s" % (self.rel_line(s), ast.unparse(s.test)[:80])
+        allowed = "AssertionError" in getattr(self.ctx, "allowed_raises", ())
         if isinstance(v, Forall):
+            if allowed:
+                if self.ctx.branch(self.ctx.fresh_bool("assert_holds"), s.lineno):
+                    self.ctx.assume(v)
+                    return
+                ws = [self.ctx.fresh_int("assert_cex") for _ in range(v.nvars)]
+                self.ctx.index_terms.extend(ws)
+                self.ctx.assume(Not(v.instantiate(*ws)))
+                raise PathEnd("raise", "AssertionError", s)
             self.ctx.check(oid, v, "assert", s.lineno, note)
             return
         v = self.to_bool(v, s.lineno)
         cv = conc(v) if is_sym(v) else v
+        if allowed:
+            if self.ctx.branch(v, s.lineno):
+                return
+            raise PathEnd("raise", "AssertionError", s)
         if cv is False:
             self.ctx.oblige(oid, z3.BoolVal(False), "assert", s.lineno, note)
             raise PathEnd("raise", "AssertionError", s)
@@ -293,6 +308,8 @@ class Interp:
             obj = self.eval(t.value, env)
             if isinstance(obj, SRec):
                 obj.set(t.attr, v)
+            elif hasattr(obj, "setattr"):
+                obj.setattr(t.attr, v)
             else:
                 raise Unsupported("attribute assignment on %r" % (obj,))
         elif isinstance(t, ast.Subscript):
